@@ -426,18 +426,33 @@ def write_tmp(lines, tag):
 SKIPPED = '!skipped'
 
 
-def run_impl(impl, cases, crashes, per_case_timeout=10, max_failures=3):
+def run_keep(cmd, timeout, env=None):
+    """like vlib.run2, but what was printed before a timeout is kept: (rc, out, err), rc 124 on timeout"""
+    import subprocess
+    e = dict(os.environ)
+    e.update(env or {})
+    p = subprocess.Popen(cmd, env=e, stdout=subprocess.PIPE, stderr=subprocess.PIPE, universal_newlines=True, errors='replace')
+    try:
+        so, se = p.communicate(timeout=timeout)
+        return p.returncode, so, se
+    except subprocess.TimeoutExpired:
+        p.kill()
+        so, se = p.communicate()
+        return 124, so, se
+
+
+def run_impl(impl, cases, crashes, per_case_timeout=3, max_failures=3):
     """-> list of answer lines (None where the implementation crashed or hung); crashes: index -> what happened.
     After max_failures crashes / hangs the remaining cases are not run (SKIPPED)."""
     out = [None] * len(cases)
     start = 0
     while start < len(cases):
-        if len(crashes) >= max_failures:
+        if len(crashes) >= max_failures or any('time limit' in v for v in crashes.values()):
             for i in range(start, len(cases)):
                 out[i] = SKIPPED
             break
         p = write_tmp([case_line(c) for c in cases[start:]], 'impl')
-        rc, so, se = vlib.run2([impl, p], timeout=20 + (len(cases) - start) // 100, env=ASAN)
+        rc, so, se = run_keep([impl, p], 10 + (len(cases) - start) // 100, env=ASAN)
         os.remove(p)
         lines = [l for l in so.split('\n') if l.startswith(('W ', 'S ')) or l in ('W', 'S')]
         lines = [l if len(l) > 1 else l + ' ' for l in lines]
@@ -449,7 +464,7 @@ def run_impl(impl, cases, crashes, per_case_timeout=10, max_failures=3):
         bad = start + n
         # confirm on its own (a hang must not be blamed on the batch timeout)
         p1 = write_tmp([case_line(cases[bad])], 'one')
-        rc1, so1, se1 = vlib.run2([impl, p1], timeout=per_case_timeout, env=ASAN)
+        rc1, so1, se1 = run_keep([impl, p1], per_case_timeout, env=ASAN)
         os.remove(p1)
         l1 = [l for l in so1.split('\n') if l.startswith(('W', 'S'))]
         if rc1 == 0 and l1:
@@ -491,7 +506,7 @@ def shrink_w(impl, names):
     changed = True
     budget = 150
     t0 = time.time()
-    while changed and budget > 0 and time.time() - t0 < 45:
+    while changed and budget > 0 and time.time() - t0 < 20:
         changed = False
         for i in range(len(names)):
             cand = names[:i] + names[i + 1:]
@@ -521,7 +536,7 @@ def shrink_s(impl, tree):
     changed = True
     budget = 150
     t0 = time.time()
-    while changed and budget > 0 and time.time() - t0 < 45:
+    while changed and budget > 0 and time.time() - t0 < 20:
         changed = False
         for s in subtrees(tree):
             budget -= 1
